@@ -62,6 +62,7 @@ func verifyFunction(prog *ssa.Program, cs *Contracts, fn *ssa.Function, fc *Func
 		g.declConst(name, "Int")
 		v := mk(name, "Int", fv.Type())
 		f.setVal(fv, v)
+		f.params["&"+fv.Name()] = f.vals[fv]
 		g.assert(sAnd(sLt("0", name), sLt(name, "next@0")))
 	}
 	env := f.specEnv(st, nil, 0, nil, nil)
